@@ -94,10 +94,10 @@ def main():
             "add_only": True,
         },
         "engines": [{"name": "vp_harness", "path": "vp_harness/", "serves_properties": claimed,
-                     "kind_free_text": "Python property-based testing harness (Hypothesis + seeded complete enumeration, 16-way sharding) with a Rust JSON-lines harness binary (rust/harness) exposing the repository's Rust crate"}],
+                     "kind_free_text": "Python property-based testing and fuzzing harness (Hypothesis + seeded complete enumeration, 16-way sharding; atheris/libFuzzer coverage-guided campaigns driving the same Hypothesis strategies for C01, C02, C10) with a Rust JSON-lines harness binary (rust/harness) exposing the repository's Rust crate"}],
         "checks": checks,
         "not_applicable": [{"property_id": p, "reason": PENDING_REASON} for p in ALL if p not in claimed],
-        "notes": "All random choices derive from VERIF_SEED. Known findings: known_findings/*.json (open entries print KNOWN-FINDING lines; fixed entries suppress nothing).",
+        "notes": "All random choices derive from VERIF_SEED (libFuzzer's internal scheduling in the coverage-guided phase is pinned by -seed only approximately; no verdict depends on it). Known findings: known_findings/*.json (open entries print KNOWN-FINDING lines; fixed entries suppress nothing).",
     }
     with open(os.path.join(ROOT, "MANIFEST.json"), "w") as fh:
         json.dump(man, fh, indent=1)
